@@ -78,6 +78,8 @@ type PropSpec struct {
 // unterminated quoted parameter, stray separators, a dangling fold, nothing at all
 var hostilePayloads = []string{"A;B=", "A;B=\"c", "A;B=c,", "A;", ";", ":", "BEGIN:VCALENDAR\r\nA;B=", "BEGIN:VCARD\r\nVERSION:4.0\r\nFN;X=\"", " folded", "", "BEGIN:VCALENDAR\r\nBEGIN:VEVENT\r\nUID;A=b,", "\x00", "BEGIN:VCALENDAR", "END:VCALENDAR"}
 
+var markerPrefix = map[string]string{"displayname": "display-value", "calendar-description": "cal-description-value", "addressbook-description": "card-description-value", "getetag": "tag-value", "getcontenttype": "text/x-marker"}
+
 func upstreamAccepts(name, text string) (ok bool) {
 	defer func() {
 		if recover() != nil {
@@ -134,7 +136,7 @@ type Case struct {
 const icalText = "BEGIN:VCALENDAR\r\nVERSION:2.0\r\nPRODID:-//verif//EN\r\nBEGIN:VEVENT\r\nUID:u1\r\nDTSTAMP:20200101T000000Z\r\nDTSTART:20200101T000000Z\r\nEND:VEVENT\r\nEND:VCALENDAR\r\n"
 const vcardText = "BEGIN:VCARD\r\nVERSION:4.0\r\nFN:x\r\nEND:VCARD\r\n"
 
-var propBuilders = map[string]func(coll bool) *vx.Node{
+var propBuilders = map[string]func(coll bool) *vx.Node{ // values that carry a marker are made unique per response by render()
 	"resourcetype": func(coll bool) *vx.Node {
 		n := vx.El(vdav.NSDAV, "resourcetype")
 		if coll {
@@ -190,6 +192,13 @@ func (d Doc) render() string {
 					order = append(order, p.Status)
 				}
 				el := propBuilders[p.Name](r.Coll)
+				if pre, ok := markerPrefix[p.Name]; ok {
+					uniq := fmt.Sprintf("%s-%d", pre, i)
+					if p.Name == "getetag" {
+						uniq = `"` + uniq + `"`
+					}
+					el.Children = []*vx.Node{vx.T(uniq)}
+				}
 				if p.Payload > 0 && p.Payload <= len(hostilePayloads) && (p.Name == "calendar-data" || p.Name == "address-data") {
 					el.Children = []*vx.Node{vx.T(hostilePayloads[p.Payload-1])}
 				}
@@ -600,6 +609,7 @@ func evaluate(c Case) (o vev.Outcome, err error) {
 }
 
 func isXML(ct string) bool {
+	ct = strings.ToLower(ct)
 	return strings.HasPrefix(ct, "application/xml") || strings.HasPrefix(ct, "text/xml")
 }
 
@@ -607,24 +617,57 @@ func isXML(ct string) bool {
 func noBogusData(m *methodInfo, d Doc, v any, rendered string) vev.Outcome {
 	b, _ := json.Marshal(v)
 	js := string(b)
-	markers := map[string]string{"displayname": "display-value", "calendar-description": "description-value", "addressbook-description": "description-value", "getetag": "tag-value", "getcontenttype": "text/plain"}
+	// every marker-carrying property value is unique per response ("tag-value-3"), so data can be traced: what a
+	// response reports under a failure status, or does not report at all, must not appear in the object built from
+	// that response - neither its own value nor one left over from a neighbouring response
+	objs := map[string]string{}
+	var visit func(x any)
+	visit = func(x any) {
+		switch t := x.(type) {
+		case []any:
+			for _, e := range t {
+				visit(e)
+			}
+		case map[string]any:
+			if p, ok := t["Path"].(string); ok {
+				eb, _ := json.Marshal(t)
+				objs[p] = string(eb)
+			}
+			for _, e := range t {
+				visit(e)
+			}
+		}
+	}
+	var generic any
+	if json.Unmarshal(b, &generic) == nil {
+		visit(generic)
+	}
 	for i, r := range d.Resps {
-		for _, p := range r.Props {
-			mk, ok := markers[p.Name]
-			if !ok || p.Absent || p.Status == 200 || success(p.Status) {
+		if r.Href == "none" || r.Href == "two" {
+			continue
+		}
+		obj, have := objs[d.hrefs(i)[0]]
+		for _, name := range append(append([]string{}, m.required...), m.optional...) {
+			pre, isMarker := markerPrefix[name]
+			if !isMarker {
 				continue
 			}
-			// only if no other response legitimately carries the same marker
-			legit := false
-			for j, r2 := range d.Resps {
-				for _, p2 := range r2.Props {
-					if (j != i || p2.Status == 200) && markers[p2.Name] == mk && !p2.Absent && success(p2.Status) {
-						legit = true
-					}
+			var ps *PropSpec
+			for k := range r.Props {
+				if r.Props[k].Name == name && !r.Props[k].Absent {
+					ps = &r.Props[k]
+					break
 				}
 			}
-			if !legit && strings.Contains(js, mk) {
-				return dev(m.name+"|failed-property-as-data", "%s returned %s which contains %q although %s was reported under status %d: %q", m.name, js, mk, p.Name, p.Status, rendered)
+			if r.Status == 0 && ps != nil && success(ps.Status) {
+				continue // reported with a success status: may be used
+			}
+			own := fmt.Sprintf("%s-%d", pre, i)
+			if ps != nil && strings.Contains(js, own) {
+				return dev(m.name+"|failed-property-as-data", "%s returned %s which contains %q although %s of response %d was reported under status %d: %q", m.name, js, own, name, i, ps.Status, rendered)
+			}
+			if have && strings.Contains(obj, pre+"-") {
+				return dev(m.name+"|foreign-property-as-data", "%s built %s from response %d, which does not report %s with a success status: the value comes from another response: %q", m.name, obj, i, name, rendered)
 			}
 		}
 	}
@@ -886,7 +929,7 @@ func TestArbitraryResponses(t *testing.T) {
 		c.Script.Body = vev.B(genBody(rt))
 		if rapid.IntRange(0, 3).Draw(rt, "hdrs") == 0 {
 			c.Script.Hdr = [][2]string{
-				{"ETag", rapid.SampledFrom([]string{`"ok"`, "unquoted", `W/"w"`, ""}).Draw(rt, "etag")},
+				{"ETag", rapid.SampledFrom([]string{`"ok"`, "unquoted", `W/"w"`, "", `"`, ` " `, `""`, `"a"b"`, `'a'`, `"\`}).Draw(rt, "etag")},
 				{"Last-Modified", rapid.SampledFrom([]string{"Mon, 02 Jan 2006 15:04:05 GMT", "yesterday", ""}).Draw(rt, "lm")},
 				{"Content-Length", rapid.SampledFrom([]string{"12", "-1", "abc", ""}).Draw(rt, "cl")},
 				{"Location", rapid.SampledFrom([]string{"/new/path", "http://[::1", "%zz", ""}).Draw(rt, "loc")},
@@ -895,7 +938,7 @@ func TestArbitraryResponses(t *testing.T) {
 		}
 		if rapid.IntRange(0, 5).Draw(rt, "errdoc") == 0 {
 			c.Script.Body = ""
-			c.Script.CT = rapid.SampledFrom([]string{"application/xml", "text/xml; charset=utf-8"}).Draw(rt, "errct")
+			c.Script.CT = rapid.SampledFrom([]string{"application/xml", "text/xml; charset=utf-8", "Application/XML", "TEXT/XML; charset=\"utf-8\"", "application/XML;charset=UTF-8"}).Draw(rt, "errct")
 			c.ErrDoc = rapid.SliceOfN(rapid.SampledFrom([]string{vdav.NSCal + " no-uid-conflict", vdav.NSCard + " valid-address-data", vdav.NSDAV + " lock-token-submitted", "urn:x custom"}), 1, 3).Draw(rt, "conds")
 			c.ErrPad = rapid.SampledFrom([]int{0, 0, 0, 900, 1100, 5000, 70000}).Draw(rt, "errpad")
 		}
